@@ -400,6 +400,7 @@ func (rn *runner) planPristine(prelude, calls []Call, slotSrc []int) []pristineP
 				cc := *c
 				cc.Corrupt = k
 				out[i] = pristine(rn.api, &cc, a, b, pt, rn.sc.budgetFor(len(a)+len(b)+len(pt)))
+				out[i].sorted.handMade, out[i].reversed.handMade = true, true
 				continue
 			}
 		}
